@@ -279,8 +279,8 @@ func runGraphCase(out *rec.Out, fam string, g *eng.Graph, vars map[string]any, v
 		defer ctl.Remove()
 		stats["perturbed_cases"]++
 	}
-	if rng.Intn(2) == 0 {
-		g.ShuffleDecl(rng.Intn)
+	if sh := rng.Fork(); sh.Intn(2) == 0 { // forked stream: one draw of the case's stream whatever the graph size
+		g.ShuffleDecl(sh.Intn)
 		stats["shuffled_declaration_order"]++
 	}
 	xmlText := g.XML()
